@@ -140,9 +140,72 @@ def gen_equal_items(rnd):
     return {"tree": tree, "equal_items": {"expect": expect, "i": i, "j": j}, "where": where, "fail": None, "purge": False, "share": None, "extra": None}
 
 
+FOREIGN = [
+    # (definition, the call it stands for) - factories that are not plain Python functions: builtin and C-implemented types,
+    # classes derived from them, and positional arguments given as a one-shot iterator (e.g. what another factory returned)
+    ({"__type__": "builtins.dict", "a": 1, "b": "<child>"}, lambda child: dict(a=1, b=child)),
+    ({"__type__": "builtins.dict", "__args__": [[["k", 1]]], "z": 2}, lambda child: dict([["k", 1]], z=2)),
+    ({"__type__": "builtins.range", "__args__": [0, 5]}, lambda child: range(0, 5)),
+    ({"__type__": "builtins.int", "__args__": ["7"]}, lambda child: 7),
+    ({"__type__": "collections.deque", "__args__": [[1, 2, 3]], "maxlen": 2}, lambda child: __import__("collections").deque([1, 2, 3], maxlen=2)),
+    ({"__type__": "collections.OrderedDict", "x": "<child>"}, lambda child: __import__("collections").OrderedDict(x=child)),
+    ({"__type__": "datetime.timedelta", "hours": 2, "minutes": 30}, lambda child: __import__("datetime").timedelta(hours=2, minutes=30)),
+    ({"__type__": "fractions.Fraction", "__args__": [1, 3]}, lambda child: __import__("fractions").Fraction(1, 3)),
+    ({"__type__": "vfact.Settings", "mode": "fast", "inner": "<child>"}, lambda child: {"mode": "fast", "inner": child}),
+    ({"__type__": "vfact.make", "nid": 70, "__args__": "<iter>"}, None),
+]
+
+
+def gen_foreign(rnd):
+    i = rnd.randrange(len(FOREIGN))
+    host = rnd.choice(["root", "key", "list", "arg"])
+    return {"foreign": i, "host": host, "where": rnd.choice(["", "cfg"]), "tree": {"foreign": i, "host": host}, "fail": None, "purge": False, "share": None, "extra": None}
+
+
+def run_foreign(case, result):
+    import copy
+    from cobald.daemon.config.mapping import Translator
+
+    definition, reference = FOREIGN[case["foreign"]]
+    node = copy.deepcopy(definition)
+    child = {"__type__": "vfact.make", "nid": 71}
+    for k, v in node.items():
+        if v == "<child>":
+            node[k] = child
+    one_shot = node.get("__args__") == "<iter>"
+    if one_shot:
+        node["__args__"] = iter([1, "two", 3.0])
+    tree = {"root": node, "key": {"settings": node, "n": 1}, "list": [0, node], "arg": {"__type__": "vfact.make", "nid": 72, "__args__": [node]}}[case["host"]]
+    kwargs = {"where": case["where"]} if case["where"] else {}
+    try:
+        out = Translator().translate_hierarchy(tree, **kwargs)
+    except Exception as e:  # noqa: B902
+        return [("valid definition %r rejected: %r" % (definition, e), None)]
+    products = {e["kwargs"].get("nid"): e for e in faclog.LOG}
+    got = {"root": lambda: out, "key": lambda: out["settings"], "list": lambda: out[1], "arg": lambda: products[72]["args"][0]}[case["host"]]()
+    result.count("definitions_naming_builtin_or_derived_types_or_one_shot_arguments")
+    if one_shot:
+        entry = products.get(70)
+        if entry is None or entry["args"] != (1, "two", 3.0):
+            return [("positional arguments given as a one-shot iterator (1, 'two', 3.0) arrived as %r" % (entry and entry["args"],), None)]
+        return []
+    want = reference(products[71]["product"] if 71 in products else None)
+    if definition["__type__"] == "vfact.Settings":
+        import vfact
+
+        want = vfact.Settings(want)
+    if type(got) is not type(want) or got != want:
+        return [("definition %r gave %r, the call it stands for gives %r" % (definition, got, want), None)]
+    if "<child>" in definition.values() and (71 not in products or not any(v is products[71]["product"] for v in got.values())):
+        return [("definition %r: the nested definition's product is not what the factory received" % (definition,), None)]
+    return []
+
+
 def gen_case(rnd, spec):
     if rnd.random() < 0.05:
         return gen_equal_items(rnd)
+    if rnd.random() < 0.04:
+        return gen_foreign(rnd)
     counter = [0]
     density = rnd.choice([0.0, 0.15, 0.3, 0.45, 0.6])
     max_depth = rnd.choice([2, 3, 4, 5, 7])
@@ -267,6 +330,8 @@ def execute(case, result):
             del sys.modules[name]
         result.count("cases_with_fresh_imports")
     faclog.reset()
+    if "foreign" in case:
+        return run_foreign(case, result)
     tree, fail = case["tree"], case["fail"]
     if case.get("equal_items"):
         # only the later of two items that compare equal fails: its index, not the first equal item's, locates the error
@@ -305,6 +370,9 @@ def execute(case, result):
         return [("translate_hierarchy raised %r instead of a ConfigurationError" % (e,), None)]
     log = list(faclog.LOG)
     problems = []
+    stale = [entry["name"] for entry in log if entry.get("stale")]
+    if stale:
+        problems.append("factories %r were called that belong to a module loaded before it was loaded anew: the names mean something else now" % sorted(set(stale)))
     seen = {}
     for entry in log:
         nid = entry["kwargs"].get("nid")
@@ -448,6 +516,8 @@ def execute_shared(case, tree, result):
 
 
 def nontrivial(case):
+    if "foreign" in case:
+        return True
     return len(type_nodes(case["tree"])) >= 2
 
 
@@ -463,7 +533,7 @@ def run_shard(spec):
 
 
 def finish(total, tier):
-    needed = ["valid_trees", "corrected_trees_retranslated_by_the_same_translator", "failing_trees", "lists_with_equal_items_of_which_the_later_fails", "failing_trees_with_nested_second_failure", "nodes_constructed", "order_constraints_checked", "cases_with_fresh_imports",
+    needed = ["valid_trees", "definitions_naming_builtin_or_derived_types_or_one_shot_arguments", "corrected_trees_retranslated_by_the_same_translator", "failing_trees", "lists_with_equal_items_of_which_the_later_fails", "failing_trees_with_nested_second_failure", "nodes_constructed", "order_constraints_checked", "cases_with_fresh_imports",
               "translations_with_extra_construct_keywords",
               "trees_with_shared_container", "shared_type_nodes_checked"]
     needed += ["failing_" + k for k in FAILURES]
